@@ -302,7 +302,7 @@ func runSeedGroups(tier string, seed int64) {
 	for _, p := range append(append([]string{}, compatStrings...), reorderStrings...) {
 		seedGroup(spellings(p, false), true, "abandon", "passphrase")
 	}
-	np := map[string]int{"quick": 60, "thorough": 1500}[tier]
+	np := map[string]int{"quick": 60, "thorough": 8000}[tier]
 	for k := 0; k < np; k++ {
 		p := randomUnicode(r, 1+r.intn(20))
 		seedGroup(spellings(p, false), true, "x", "randompass")
@@ -392,7 +392,7 @@ func runCheckGroups(tier string, seed int64) {
 		}
 	}
 	// arbitrary Unicode strings paired with their other normal forms
-	nr := map[string]int{"quick": 100, "thorough": 3000}[tier]
+	nr := map[string]int{"quick": 100, "thorough": 20000}[tier]
 	for k := 0; k < nr; k++ {
 		s := randomUnicode(r, 1+r.intn(40))
 		checkGroup(spellings(s, false), r.intn(10), "random")
